@@ -292,8 +292,9 @@ class Module:
 
 class Repo:
     def __init__(self, root: str = "/repo", overrides: dict[str, str] | None = None,
-                 include_tests: bool = False) -> None:
+                 include_tests: bool = False, extra_dirs: tuple[str, ...] = ()) -> None:
         self.root = root
+        self.extra_dirs = tuple(d for d in extra_dirs if os.path.isdir(os.path.join(root, d)))
         self.modules: dict[str, Module] = {}
         self.by_relpath: dict[str, Module] = {}
         self.classes: dict[str, list[ClassInfo]] = {}
@@ -318,6 +319,13 @@ class Repo:
                     yield os.path.join(rel, f)
         if os.path.exists(os.path.join(self.root, "ipv8_service.py")):
             yield "ipv8_service.py"
+        for extra in self.extra_dirs:
+            top = os.path.join(self.root, extra)
+            for d, dirs, files in os.walk(top):
+                dirs.sort()
+                for f in sorted(files):
+                    if f.endswith(".py"):
+                        yield os.path.relpath(os.path.join(d, f), self.root)
 
     def _load(self, include_tests: bool) -> None:
         for rel in self._iter_files(include_tests):
